@@ -291,6 +291,13 @@ func scriptSnapshotPlusEntries() []Event {
 		holdFrom(3), tick(1), tick(1), reportSnap(1, 3, 0), pauseReady(3, 1), flush(), pauseReady(3, 0), prop(1), tick(1), prop(1))
 }
 
+// scriptSnapshotPlusEntriesDivergent: as above, but the follower is a deposed leader whose stable
+// log holds an uncommitted tail that reaches beyond the snapshot index and conflicts with it.
+func scriptSnapshotPlusEntriesDivergent() []Event {
+	return seq(camp(3), isolate(3), prop(3), prop(3), prop(3), prop(3), prop(3), camp(1), prop(1), prop(1), prop(1), compact(1, 0), prop(1), heal(), tick(1),
+		holdFrom(3), tick(1), tick(1), reportSnap(1, 3, 0), pauseReady(3, 1), flush(), pauseReady(3, 0), prop(1), tick(1), prop(1))
+}
+
 // scriptSnapshotTermChange: a follower's append thread is slow while it installs a
 // snapshot; an election raises its term before the write is acknowledged.
 func scriptSnapshotTermChange() []Event {
@@ -718,6 +725,11 @@ func poolSafety(tier string) (p pool) {
 		p.bfs = append(p.bfs, split(bfsReplicate(f, 2)))
 	}
 	{
+		qv := ddScn("queued-votes", 3, ids(3), asyncF, scriptQueuedVotes(), k, int(BDrop), 1, int(BDup), 1, int(BCrash), 1)
+		qv.NoClone = true
+		p.dd = append(p.dd, qv)
+	}
+	{
 		ss := tickSnap(ddScn("stale-self-ack", 3, ids(3), asyncF, scriptStaleSelfAck(), k, int(BDrop), 1, int(BDup), 1, int(BCrash), 1))
 		p.dd = append(p.dd, ss)
 	}
@@ -753,6 +765,15 @@ func poolSafety(tier string) (p pool) {
 func scriptStaleSelfAck() []Event {
 	return seq(camp(1), pauseAppend(1, 1), isolate(1), prop(1), prop(1), prop(1), camp(2), prop(2), heal(), tick(2), holdFrom(3), camp(1), deliverHeld(3, 1),
 		appendStep(1), prop(1), appendStep(1), appendStep(1), pauseAppend(1, 0), flush(), tick(1), prop(1))
+}
+
+// scriptQueuedVotes: node 1's append thread lags while node 1 grants its vote in two successive
+// terms (each grant is a write that carries nothing but the hard state); the thread then performs
+// the writes one at a time. Explored by replay (NoClone): the responses attached to a queued write
+// must not share memory with later ones.
+func scriptQueuedVotes() []Event {
+	return seq(camp(1), prop(1), pauseAppend(1, 1), holdFrom(2), holdFrom(3), camp(2), deliverHeld(2, 1), camp(3), camp(3), deliverHeld(3, 1), deliverHeld(3, 1),
+		appendStep(1), appendStep(1), appendStep(1), pauseAppend(1, 0), flush(), prop(3), prop(2))
 }
 
 func scriptStaleBatchN(steps int) []Event {
@@ -891,6 +912,9 @@ func poolSnapshot(tier string) (p pool) {
 			se := tickSnap(ddScn("snapshot+entries", 3, ids(3), f, scriptSnapshotPlusEntries(), k, int(BDrop), 1, int(BDup), 1, int(BCrash), 1))
 			se.SlowSnap = true
 			p.dd = append(p.dd, se)
+			sd := tickSnap(ddScn("snapshot+entries-divergent", 3, ids(3), f, scriptSnapshotPlusEntriesDivergent(), k, int(BDrop), 1, int(BDup), 1, int(BCrash), 1))
+			sd.SlowSnap = true
+			p.dd = append(p.dd, sd)
 		}
 		for _, ff := range []feat{{async: f.async, prevote: true}, f} {
 			cs := tickSnap(ddScn("candidate-snapshot", 3, ids(3), ff, scriptCandidateSnapshot(), k, int(BDrop), 1, int(BDup), 1, int(BCampaign), 1))
@@ -1068,6 +1092,15 @@ func poolTick(tier string) (p pool) {
 			tickSc("prevote-rejoin", 3, f, scriptPrevoteRejoin(), k, tb...),
 			tickSc("checkquorum-lease", 3, f, scriptCheckQuorumLease(), k, tb...),
 		)
+	}
+	for _, f := range []feat{cqF, pvcqF} {
+		// the promotion of the only learner commits at the sole voter but never reaches the learner;
+		// the leader restarts and now needs the vote of a node that still believes it is a learner
+		// and that heard from a leader not long ago
+		lp := tickSc("learner-promotion-lost", 2, f, seq(ticks(1, 3), prop(1), roundTicks(2, 1), isolate(2), conf(1, 0), crash(1, 0), heal(), ticks(2, 1)), k, int(BTick), 2, int(BDrop), 1)
+		lp.Voters, lp.Learners = []uint64{1}, []uint64{2}
+		lp.ConfMenu = []ConfSpec{{Changes: "v2"}}
+		p.dd = append(p.dd, lp)
 	}
 	for _, f := range []feat{cqF, pvcqF} {
 		p.dd = append(p.dd, tickSc("late-same-term-vote", 5, f, scriptLateSameTermVote(), k, tb...))
